@@ -12,8 +12,10 @@ import (
 	stdlog "log"
 	"os"
 	"os/exec"
+	"runtime"
 	"sort"
 	"strings"
+	"sync/atomic"
 	"time"
 
 	"github.com/pentops/j5/internal/zzverif/simrt"
@@ -57,6 +59,7 @@ type Replay struct {
 	Violation  *Violation `json:"violation"`
 	FindingKey string     `json:"finding_key"`
 	Minimised  bool       `json:"minimised"`
+	Sig        string     `json:"schedule_signature,omitempty"`
 	Trace      []string   `json:"trace,omitempty"`
 	Note       string     `json:"note,omitempty"`
 }
@@ -160,6 +163,7 @@ func main() {
 	log.DefaultLogger = log.NewCallbackLogger(func(string, string, map[string]interface{}) {})
 	stdlog.SetOutput(io.Discard)
 	initRaceLog()
+	startMainWatchdog()
 	buildCatalogue()
 
 	switch *mode {
@@ -238,8 +242,16 @@ func runWorker(master uint64, worker, workers, scheds, maxProgs int, budget floa
 				}
 			}
 		}
+		progress()
 		adm := computeAdmissible(w, prep, warm, wseed, 4)
 		st.SeqOrders += adm.orders + w.NumOps()
+		if adm.SeqDeadlock {
+			v := &Violation{Class: "deadlock", Task: -1, Op: -1, Detail: "a purely sequential execution of this workload on one shared instance blocks forever (a lock is never released)"}
+			res.Violations = append(res.Violations, &Replay{Property: "C10", MasterSeed: master, RunIndex: idx, SchedIndex: -1, Workload: w,
+				Run: RunCfg{Policy: simrt.Policy{Mode: "serial"}}, Violation: v, FindingKey: v.Key(), Note: "found by the sequential reference execution"})
+			st.Executions++
+			goto done
+		}
 		estYields := 0
 		for s := 0; s < scheds; s++ {
 			if s%4 == 3 && time.Since(start).Seconds() > budget {
@@ -260,6 +272,7 @@ func runWorker(master uint64, worker, workers, scheds, maxProgs int, budget floa
 				b, _ := json.Marshal(cur)
 				_ = os.WriteFile(outPath+".current", b, 0o644)
 			}
+			progress()
 			r := runSim(w, prep, warm, cfg, false)
 			if s == 0 {
 				estYields = r.Stats.Yields
@@ -277,7 +290,7 @@ func runWorker(master uint64, worker, workers, scheds, maxProgs int, budget floa
 			st.Probes["blocked_yields"] += r.Stats.BlockedYields
 			st.Probes["once_waits"] += r.Stats.OnceWaits
 			st.SwitchHist[bucket(r.Stats.Switches)]++
-			v := judge(w, prep, warm, adm, r, wseed, estYields)
+			vs := judge(w, prep, warm, adm, r, wseed, estYields)
 			if !r.Deadlock && !r.Capped {
 				for _, t := range r.Outcomes {
 					for _, o := range t {
@@ -295,7 +308,13 @@ func runWorker(master uint64, worker, workers, scheds, maxProgs int, budget floa
 				if !r.Deadlock && !r.Capped {
 					od = outcomesDigest(r.Outcomes)
 				}
-				res.DetLog = append(res.DetLog, fmt.Sprintf("%d/%d sig=%016x y=%d sw=%d out=%s v=%v", idx, s, r.Sig, r.Stats.Yields, r.Stats.Switches, od, v != nil && v.Class != "data_race"))
+				nonRace := 0
+				for _, v := range vs {
+					if v.Class != "data_race" {
+						nonRace++
+					}
+				}
+				res.DetLog = append(res.DetLog, fmt.Sprintf("%d/%d sig=%016x y=%d sw=%d out=%s v=%d", idx, s, r.Sig, r.Stats.Yields, r.Stats.Switches, od, nonRace))
 			}
 			if len(res.Samples) < 2 && nt {
 				sm := Sample{Codec: w.Codec, Warm: opsStrings(w.Warm), Policy: policyName(pol), Switches: r.Stats.Switches, Yields: r.Stats.Yields}
@@ -304,20 +323,38 @@ func runWorker(master uint64, worker, workers, scheds, maxProgs int, budget floa
 				}
 				res.Samples = append(res.Samples, sm)
 			}
-			if v != nil {
+			if detlog || len(vs) > 0 {
+				// exact-replay self-check: the recorded switch list must reproduce the run
+				if !r.Deadlock && !r.Capped {
+					fc := cfg
+					fc.Policy = simrt.Policy{Mode: "forced", Forced: r.Switches}
+					r2 := runSim(w, prep, warm, fc, false)
+					if r2.Sig != r.Sig || r2.Deadlock || r2.Capped {
+						st.Probes["replay_signature_mismatch"]++
+						fmt.Fprintf(os.Stderr, "replay signature mismatch at workload %d schedule %d (%s)\n", idx, s, policyName(pol))
+					} else {
+						st.Probes["replay_signature_match"]++
+					}
+					if r2.Race != "" && r.Race == "" {
+						r.Race = r2.Race
+						vs = judge(w, prep, warm, adm, r, wseed, estYields)
+					}
+				}
+			}
+			for _, v := range vs {
 				key := v.Key()
 				if !seenKeys[key] {
 					seenKeys[key] = true
 					fcfg := cfg
 					fcfg.Policy = simrt.Policy{Mode: "forced", Forced: r.Switches}
 					rp := &Replay{Property: "C10", MasterSeed: master, RunIndex: idx, SchedIndex: s, Workload: w, Run: fcfg, Violation: v, FindingKey: key,
-						Note: "found under policy " + policyName(pol)}
+						Sig: fmt.Sprintf("%016x", r.Sig), Note: "found under policy " + policyName(pol)}
 					res.Violations = append(res.Violations, rp)
 				}
-				if r.Deadlock || r.Capped {
-					// parked goroutines cannot be reclaimed: end this worker here
-					goto done
-				}
+			}
+			if r.Deadlock || r.Capped {
+				// parked goroutines cannot be reclaimed: end this worker here
+				goto done
 			}
 		}
 	}
@@ -331,6 +368,29 @@ done:
 		_ = os.Remove(outPath + ".current")
 	}
 	return res
+}
+
+var lastProgress atomic.Int64
+
+func progress() { lastProgress.Store(time.Now().Unix()) }
+
+// startMainWatchdog aborts the process (status 3 = machinery trouble) when the
+// harness itself makes no progress, e.g. because code under test blocks the
+// main goroutine outside any simulation.
+func startMainWatchdog() {
+	progress()
+	go func() {
+		for {
+			time.Sleep(5 * time.Second)
+			if time.Now().Unix()-lastProgress.Load() > 90 {
+				fmt.Fprintln(os.Stderr, "WATCHDOG: harness made no progress for 90s (code under test blocked the main goroutine outside a simulation)")
+				buf := make([]byte, 1<<18)
+				n := runtime.Stack(buf, true)
+				os.Stderr.Write(buf[:n])
+				os.Exit(3)
+			}
+		}
+	}()
 }
 
 func bucket(n int) string {
@@ -370,24 +430,37 @@ func loadReplay(file string) (*Replay, error) {
 	return &rp, nil
 }
 
-// replayOnce executes the recorded run; returns the violation it produces.
+// replayOnce executes the recorded run; returns the violation with the
+// recorded key if it occurs, else any other violation of the run.
 func replayOnce(rp *Replay, attempts int, keepEvents bool) (*Violation, *RunResult) {
 	w := rp.Workload
 	prep, warm := prepareAll(w)
 	adm := computeAdmissible(w, prep, warm, 1, 4)
+	if adm.SeqDeadlock {
+		return &Violation{Class: "deadlock", Task: -1, Op: -1, Detail: "a purely sequential execution of this workload on one shared instance blocks forever (a lock is never released)"}, &RunResult{Deadlock: true}
+	}
 	var last *RunResult
+	var other *Violation
+	want := rp.Violation.Key()
 	for a := 0; a < attempts; a++ {
 		r := runSim(w, prep, warm, rp.Run, keepEvents)
 		last = r
-		v := judge(w, prep, warm, adm, r, 1, 0)
-		if v != nil {
-			return v, r
+		for _, v := range judge(w, prep, warm, adm, r, 1, 0) {
+			if v.Key() == want {
+				return v, r
+			}
+			if other == nil {
+				other = v
+			}
+		}
+		if r.Deadlock || r.Capped {
+			break
 		}
 		if rp.Violation.Class != "data_race" {
 			break // everything but race reports is a pure function of the file
 		}
 	}
-	return nil, last
+	return other, last
 }
 
 func runReplay(file string, verbose bool) int {
@@ -408,6 +481,9 @@ func runReplay(file string, verbose bool) int {
 	if verbose {
 		fmt.Printf("REPLAY: violation class=%s key=%s task=%d op=%d %s\n%s\n", v.Class, v.Key(), v.Task, v.Op, v.OpSpec, indent(truncate(v.Detail, 3000)))
 		fmt.Printf("  schedule: %d yields, %d switches, signature %016x\n", r.Stats.Yields, r.Stats.Switches, r.Sig)
+		if rp.Sig != "" && !rp.Minimised && rp.Sig != fmt.Sprintf("%016x", r.Sig) {
+			fmt.Printf("  NOTE: schedule signature differs from the recorded one (%s): the tree changed the yield sequence\n", rp.Sig)
+		}
 	}
 	if v.Class == "harness_race" || v.Class == "harness_trouble" || v.Class == "yield_cap" {
 		return 2
